@@ -152,7 +152,7 @@ fn main() {
                     }
                 }
                 let ok = match rt::below(6) {
-                    0 => desert::deserialize::<[u32; 3]>(&bytes).map(|x| x.iter().sum::<u32>() as usize).is_ok(),
+                    0 => desert::deserialize::<[u32; 3]>(&bytes).map(|x| x.iter().fold(0u32, |a, b| a.wrapping_add(*b)) as usize).is_ok(),
                     1 => desert::deserialize::<[String; 2]>(&bytes).map(|x| x[0].len() + x[1].len()).is_ok(),
                     2 => desert::deserialize::<[u8; 4]>(&bytes).map(|x| x[0] as usize + x[3] as usize).is_ok(),
                     3 => desert::deserialize::<Vec<u8>>(&bytes).map(|x| x.len()).is_ok(),
